@@ -99,6 +99,7 @@ type Exec struct {
 	opaqueBytes map[*Opaque]*Term
 	marshalKind string
 	timeFmtDigits bool
+	pendingGo []pendingGo
 }
 
 type knownPred struct {
